@@ -150,7 +150,7 @@ VAX = [0, 1, None]
 
 @with_real_dicts
 def vmap_like_per_index(pa, sa, xa, oa, use_state_axes, x0, x1, x2, x3, x4, x5, w0, w1,
-                        c0, k0):
+                        c0, k0, ta=0, barevar=False):
   """nnx.vmap == calling the function once per index on the per-index slice of every
   state group that has an axis, None groups shared; per-index updates end up stacked
   in the caller's own objects; outputs stacked along out_axes"""
@@ -169,26 +169,41 @@ def vmap_like_per_index(pa, sa, xa, oa, use_state_axes, x0, x1, x2, x3, x4, x5, 
   ks = [Arr([k0 - i], (1,)) for i in range(n)]
   stack = lambda items, ax: items[0] if ax is None else Arr.stack(items, ax)
   m = VM(stack(ws, p_axis), Arr.stack(cs, s_axis), stack(ks, p_axis))
+  # a third group whose per-index value has rank 2 (stacked: rank 3) on its own axis
+  t_axis = pick([0, 1, 2, -1], ta) if use_state_axes else p_axis
+  ts = [Arr([k0 + i, c0 - i], (2, 1)) for i in range(n)]
+  m.t = GR.Stat(Arr.stack(ts, t_axis))
+  bare = nnx.Variable(Arr.stack([Arr([w1 + i], (1,)) for i in range(n)], 0))
   seen = []
 
-  def f(m_, x_):
+  def f(*a):
+    if barevar:
+      v_, m_, x_ = a
+      v_.value = v_.value + 1          # a bare Variable as the first graph node
+    else:
+      m_, x_ = a
     seen.append((m_.w.value.shape, m_.c.value.shape, x_.shape))
     xs = x_.sum()
     m_.c.value = m_.c.value + xs
+    m_.t.value = m_.t.value + xs
     return Arr([m_.w.value.at((0,)) * xs + m_.sub.k.value.at((0,)),
-                xs + m_.c.value.at((0,))], (2,))
-  axes = nnx.StateAxes({nnx.Param: p_axis, nnx.BatchStat: s_axis}) \
+                xs + m_.c.value.at((0,)) + m_.t.value.at((1, 0))], (2,))
+  axes = nnx.StateAxes({nnx.Param: p_axis, nnx.BatchStat: s_axis, GR.Stat: t_axis}) \
       if use_state_axes else p_axis
   ids = (id(m), id(m.w), id(m.c), id(m.sub))
   with VmapEnv():
-    y = nnx.vmap(f, in_axes=(axes, x_axis), out_axes=oa,
-                 axis_size=None)(m, x)
+    if barevar:
+      y = nnx.vmap(f, in_axes=(0, axes, x_axis), out_axes=oa)(bare, m, x)
+    else:
+      y = nnx.vmap(f, in_axes=(axes, x_axis), out_axes=oa,
+                   axis_size=None)(m, x)
   wi = (lambda i: ws[0]) if p_axis is None else (lambda i: ws[i])
   ki = (lambda i: ks[0]) if p_axis is None else (lambda i: ks[i])
   new_c = [cs[i] + xi(i).sum() for i in range(n)]
+  new_t = [ts[i] + xi(i).sum() for i in range(n)]
   want_y = Arr.stack([Arr([wi(i).at((0,)) * xi(i).sum() + ki(i).at((0,)),
-                           xi(i).sum() + new_c[i].at((0,))], (2,))
-                      for i in range(n)], oa)
+                           xi(i).sum() + new_c[i].at((0,)) + new_t[i].at((1, 0))],
+                          (2,)) for i in range(n)], oa)
   if not want_y.same(y):
     return False
   if any(s != ((2,), (1,), (2,)) for s in seen) or len(seen) != n:
@@ -196,13 +211,18 @@ def vmap_like_per_index(pa, sa, xa, oa, use_state_axes, x0, x1, x2, x3, x4, x5, 
   # the caller's own objects carry the stacked per-index updates; the rest is intact
   if ids != (id(m), id(m.w), id(m.c), id(m.sub)):
     return False
+  if barevar and not Arr.stack([Arr([w1 + i + 1], (1,)) for i in range(n)], 0).same(
+      bare.value):
+    return False
+  if not Arr.stack(new_t, t_axis).same(m.t.value):
+    return False
   return (Arr.stack(new_c, s_axis).same(m.c.value) and stack(ws, p_axis).same(
       m.w.value) and stack(ks, p_axis).same(m.sub.k.value))
 
 
 @with_real_dicts
 def scan_like_loop(pa, xa, oa, reverse, carry_stat, x0, x1, x2, w0, w1, c0, k0, s0,
-                   varcarry=False):
+                   varcarry=False, ta=0):
   """nnx.scan == the Python loop: Carry threaded, the Param group sliced per step
   along its axis, the BatchStat group carried (each step sees the previous update)
   or sliced, outputs stacked in index order for either direction; the caller's own
@@ -216,10 +236,14 @@ def scan_like_loop(pa, xa, oa, reverse, carry_stat, x0, x1, x2, w0, w1, c0, k0, 
   cs = [Arr([c0 + 2 * i], (1,)) for i in range(n)]
   m = VM(Arr.stack(ws, p_axis), Arr([c0], (1,)) if carry_stat else Arr.stack(cs, 0),
          Arr.stack(ks, p_axis))
+  t_axis = pick([0, 1, 2, -1], ta)
+  ts = [Arr([k0 + i, c0 - i], (2, 1)) for i in range(n)]
+  m.t = GR.Stat(Arr.stack(ts, t_axis))
 
   def f(carry, m_, x_):
     xs = x_.at((0,))
     m_.c.value = m_.c.value * 2 + xs               # order sensitive when carried
+    m_.t.value = m_.t.value + xs
     old = carry.value if varcarry else carry
     new = old * 3 + xs + m_.w.value.at((0,))
     if varcarry:
@@ -227,7 +251,8 @@ def scan_like_loop(pa, xa, oa, reverse, carry_stat, x0, x1, x2, w0, w1, c0, k0, 
     return (carry if varcarry else new), Arr(
         [xs + m_.c.value.at((0,)) + m_.sub.k.value.at((0,)), new.at((0,))], (2,))
   axes = nnx.StateAxes({nnx.Param: p_axis,
-                        nnx.BatchStat: nnx.Carry if carry_stat else 0})
+                        nnx.BatchStat: nnx.Carry if carry_stat else 0,
+                        GR.Stat: t_axis})
   ids = (id(m), id(m.w), id(m.c), id(m.sub))
   carry0 = nnx.Variable(Arr([s0], (1,))) if varcarry else Arr([s0], (1,))
   with VmapEnv():
@@ -256,6 +281,8 @@ def scan_like_loop(pa, xa, oa, reverse, carry_stat, x0, x1, x2, w0, w1, c0, k0, 
   if ids != (id(m), id(m.w), id(m.c), id(m.sub)):
     return False
   want_c = Arr([c], (1,)) if carry_stat else Arr.stack(newc, 0)
+  if not Arr.stack([ts[i] + xv[i] for i in range(n)], t_axis).same(m.t.value):
+    return False
   return want_c.same(m.c.value) and Arr.stack(ws, p_axis).same(m.w.value)
 
 
@@ -509,7 +536,8 @@ def obligations(tier):
                 'graph + 1 aliasing edge, all axis pairs'),
       Ob('vmap_like_per_index', vmap_like_per_index,
          dict(pa=I(0, 2), sa=I(0, 1), xa=I(0, 2), oa=I(0, 1), use_state_axes=B(),
-              x0=v3, x1=v3, x2=v3, x3=v3, x4=v3, x5=v3, w0=v3, w1=v3, c0=v3, k0=v3),
+              x0=v3, x1=v3, x2=v3, x3=v3, x4=v3, x5=v3, w0=v3, w1=v3, c0=v3, k0=v3,
+              ta=I(0, 3), barevar=B()),
          split=('pa', 'sa', 'xa'), timeout=600, funcs=qualnames(
              IT.vmap, IT.VmapFn.__call__, IT._vmap_split_fn, IT.StateAxes.map_prefix,
              extract.to_tree, extract.from_tree), per_path_timeout=60.0,
@@ -519,7 +547,7 @@ def obligations(tier):
                   'on an int-array stand-in',)),
       Ob('scan_like_loop', scan_like_loop,
          dict(pa=I(0, 1), xa=I(0, 1), oa=I(0, 1), reverse=B(), carry_stat=B(), x0=v3,
-              x1=v3, x2=v3, w0=v3, w1=v3, c0=v3, k0=v3, s0=v3, varcarry=B()),
+              x1=v3, x2=v3, w0=v3, w1=v3, c0=v3, k0=v3, s0=v3, varcarry=B(), ta=I(0, 3)),
          split=('pa', 'xa', 'reverse', 'carry_stat'), timeout=600, funcs=qualnames(
              IT.scan, IT.ScanFn.__call__, IT._scan_split_in, IT._scan_split_out,
              IT._scan_merge_in, IT._scan_merge_out), per_path_timeout=60.0,
